@@ -506,7 +506,14 @@ class Interp(object):
         r = self._after_ev(st)
         if r[0] is None:
             return r
-        v = self.binop(s.op, cur, rhs)
+        v = NotImplemented
+        if isinstance(cur, AObj) or isinstance(rhs, AObj):
+            v = self.dunder_binop(s.op, cur, rhs, st, s, inplace=True)
+            r = self._after_ev(st)
+            if r[0] is None:
+                return r
+        if v is NotImplemented:
+            v = self.binop(s.op, cur, rhs)
         if isinstance(v, models.Raises):
             return None, self.do_raise(v.exc, st, s)
         if isinstance(cur, list) and isinstance(s.op, ast.Add) and \
@@ -1267,6 +1274,9 @@ class Interp(object):
         a = self.ev(n.left, st)
         b = self.ev(n.right, st)
         if isinstance(a, AObj) or isinstance(b, AObj):
+            r = self.dunder_binop(n.op, a, b, st, n)
+            if r is not NotImplemented:
+                return r
             # an instance of a repo class without operator methods
             names = {ast.Add: ("__add__", "__radd__"), ast.Sub: ("__sub__", "__rsub__"),
                      ast.Mult: ("__mul__", "__rmul__"), ast.Mod: ("__mod__", "__rmod__")}.get(type(n.op))
@@ -1286,6 +1296,26 @@ class Interp(object):
             self._diverged = self.do_raise(v.exc, st, n)
             return UNK
         return v
+
+    DUNDER = {ast.Add: "add", ast.Sub: "sub", ast.Mult: "mul", ast.Mod: "mod", ast.Pow: "pow",
+              ast.BitXor: "xor", ast.BitAnd: "and", ast.BitOr: "or", ast.LShift: "lshift",
+              ast.RShift: "rshift", ast.FloorDiv: "floordiv"}
+
+    def dunder_binop(self, op, a, b, st, node, inplace=False):
+        nm = self.DUNDER.get(type(op))
+        if nm is None:
+            return NotImplemented
+        tries = []
+        if inplace:
+            tries.append((a, "__i%s__" % nm, b))
+        tries.append((a, "__%s__" % nm, b))
+        tries.append((b, "__r%s__" % nm, a))
+        for o, meth, other in tries:
+            if isinstance(o, AObj) and o.cnode is not None and o.ident not in st.havoc:
+                r = self.repo.find_method(o.mod, o.cnode, meth)
+                if r is not None:
+                    return self.call_func(AFunc(r[0], r[1], self_obj=o, cls=o.cnode), [other], {}, st, node)
+        return NotImplemented
 
     def binop(self, op, a, b):
         return models.binop(op, a, b)
@@ -1308,6 +1338,14 @@ class Interp(object):
                 self._diverged = self.do_raise("TypeError", st, n)
                 return UNK
             r = models.compare(op, left, right)
+            if r is None and isinstance(op, (ast.Eq, ast.NotEq)) and isinstance(left, AObj) \
+                    and left.cnode is not None and left.ident not in st.havoc:
+                eq = self.repo.find_method(left.mod, left.cnode, "__eq__")
+                if eq is not None:
+                    v = self.call_func(AFunc(eq[0], eq[1], self_obj=left, cls=left.cnode), [right], {}, st, n)
+                    t = truth(v)
+                    if t is not None:
+                        r = t if isinstance(op, ast.Eq) else (not t)
             if r is False:
                 return False
             if r is None:
@@ -1570,7 +1608,11 @@ class Interp(object):
             self.event("ffi", f.name[4:], node, args=(args, kwargs))
             return Unknown("int")
         if isinstance(f, ABuiltin):
-            mdl = self.extra_models.get(f.name) or models.EXT_MODELS.get(f.name)
+            mdl = self.extra_models.get(f.name)
+            if mdl is None and f.name == "os.urandom":
+                # Crypto.Random.get_random_bytes is an alias of os.urandom
+                mdl = self.extra_models.get("Crypto.Random.get_random_bytes")
+            mdl = mdl or models.EXT_MODELS.get(f.name)
             if mdl is None:
                 short = f.name.split(".")[-1]
                 if short in BUILTIN_EXC and f.name in BUILTIN_EXC:
